@@ -347,7 +347,7 @@ class SignWatch(object):
 # solves
 # ---------------------------------------------------------------------------------------
 
-def check_solve(mp, rec, r, op, kind, cplx, p, Aq, bq, via_list=False):
+def check_solve(mp, rec, r, op, kind, cplx, p, Aq, bq, via_list=False, A_obj=None):
     """Aq exact matrix, bq exact rhs (list) or None"""
     m, n = L.shape(Aq)
     over = m > n
@@ -386,7 +386,7 @@ def check_solve(mp, rec, r, op, kind, cplx, p, Aq, bq, via_list=False):
             A_in = as_list_input(r, Aq)
             b_in = [v[0] for v in as_list_input(r, [[v] for v in bq])] if bq is not None else None
         else:
-            A_in = L.to_mpmatrix(mp, Aq, force_complex=False)
+            A_in = A_obj if A_obj is not None else L.to_mpmatrix(mp, Aq, force_complex=False)
             b_in = L.to_mpmatrix(mp, [[v] for v in bq]) if bq is not None else None
         try:
             if op in ('lu_solve', 'lu_solve_over'):
@@ -460,7 +460,7 @@ def check_solve(mp, rec, r, op, kind, cplx, p, Aq, bq, via_list=False):
 # factorizations
 # ---------------------------------------------------------------------------------------
 
-def check_lu(mp, rec, r, op, kind, cplx, p, Aq):
+def check_lu(mp, rec, r, op, kind, cplx, p, Aq, A_obj=None):
     n = len(Aq)
     case = {'op': op, 'kind': kind, 'complex': cplx, 'prec': p, 'A': ser(Aq)}
     try:
@@ -473,7 +473,7 @@ def check_lu(mp, rec, r, op, kind, cplx, p, Aq):
         return
     exc = None
     with Prec(mp, p):
-        A_in = L.to_mpmatrix(mp, Aq)
+        A_in = A_obj if A_obj is not None else L.to_mpmatrix(mp, Aq)
         try:
             if op == 'lu':
                 P, Lm, U = mp.lu(A_in)
@@ -488,11 +488,18 @@ def check_lu(mp, rec, r, op, kind, cplx, p, Aq):
         return
     if op == 'lu':
         Pq, Lq, Uq = L.from_mpmatrix(P), L.from_mpmatrix(Lm), L.from_mpmatrix(U)
+        if not (L.shape(Pq) == L.shape(Lq) == L.shape(Uq) == (n, n)):
+            rec.violation('C30/lu/shape', 'P, L, U do not have the shape of the (current) matrix', case,
+                          [L.shape(Pq), L.shape(Lq), L.shape(Uq)], (n, n))
+            return
     else:
         if L.from_mpmatrix(A_in) != Aq and not L.equal(L.from_mpmatrix(A_in), Aq):
             rec.violation('C30/LU_decomp/input-overwritten', 'LU_decomp(overwrite=False) modified its argument', case, None, None)
             return
         C = L.from_mpmatrix(LU)
+        if L.shape(C) != (n, n):
+            rec.violation('C30/LU_decomp/shape', 'the combined LU matrix does not have the shape of the (current) matrix', case, L.shape(C), (n, n))
+            return
         Lq = [[C[i][j] if i > j else (Fraction(1) if i == j else Fraction(0)) for j in range(n)] for i in range(n)]
         Uq = [[C[i][j] if i <= j else Fraction(0) for j in range(n)] for i in range(n)]
         if len(piv) != max(0, n - 1) or any((not isinstance(k, int)) or k < j or k >= n for j, k in enumerate(piv)):
@@ -522,12 +529,12 @@ def check_lu(mp, rec, r, op, kind, cplx, p, Aq):
                       {'log2_residual': L.approx_log2(rhi)}, {'log2_bound': L.approx_log2(L.pow2(10 - p) * scale)})
 
 
-def check_qr(mp, rec, r, kind, cplx, p, Aq, mode):
+def check_qr(mp, rec, r, kind, cplx, p, Aq, mode, A_obj=None):
     m, n = L.shape(Aq)
     case = {'op': 'qr', 'kind': kind, 'complex': cplx, 'prec': p, 'A': ser(Aq), 'mode': mode}
     exc = None
     with Prec(mp, p):
-        A_in = L.to_mpmatrix(mp, Aq, force_complex=(cplx and r.random() < 0.3))
+        A_in = A_obj if A_obj is not None else L.to_mpmatrix(mp, Aq, force_complex=(cplx and r.random() < 0.3))
         try:
             if mode == 'full':
                 Qm, Rm = mp.qr(A_in)
@@ -569,7 +576,7 @@ def check_qr(mp, rec, r, kind, cplx, p, Aq, mode):
                       {'log2_residual': L.approx_log2(r2) / 2 if r2 else None}, {'log2_bound': L.approx_log2(a2) / 2 + 10 - p if a2 else None})
 
 
-def check_cholesky(mp, rec, r, kind, cplx, p, Aq):
+def check_cholesky(mp, rec, r, kind, cplx, p, Aq, A_obj=None):
     n = len(Aq)
     case = {'op': 'cholesky', 'kind': kind, 'complex': cplx, 'prec': p, 'A': ser(Aq)}
     Ainv = L.inverse(Aq)
@@ -579,7 +586,7 @@ def check_cholesky(mp, rec, r, kind, cplx, p, Aq):
         return
     exc = None
     with Prec(mp, p):
-        A_in = L.to_mpmatrix(mp, Aq)
+        A_in = A_obj if A_obj is not None else L.to_mpmatrix(mp, Aq)
         try:
             Lm = mp.cholesky(A_in)
         except Exception as e:
@@ -912,6 +919,250 @@ def check_arith(mp, rec, r, op, kind, cplx, p, tier):
                                   case, {'log2_relerr': ratio}, None)
 
 
+
+# ---------------------------------------------------------------------------------------
+# mutate-then-refactor: stale state kept on a matrix *object* (LU cache) must never leak into a later call
+# ---------------------------------------------------------------------------------------
+MUT_OPS = ['lu', 'LU_decomp', 'det', 'inverse', 'lu_solve', 'qr', 'cholesky']
+MUT_KINDS = ['element', 'row-slice', 'col-slice', 'col-slice-scalar', 'block-slice', 'full-slice', 'swap_row', 'inplace-slice-op',
+             'inplace-element-op', 'rebind-op', 'resize-shrink', 'resize-grow']
+MUT_CASES = {'quick': 170, 'thorough': 1700}
+
+
+class TagRec(object):
+    """recorder proxy: every violation raised by the ordinary checks is re-keyed to C30/<op>/after-mutation/<kind>"""
+
+    def __init__(self, rec, op, kind):
+        self._rec, self._op, self._kind = rec, op, kind
+
+    def __getattr__(self, name):
+        return getattr(self._rec, name)
+
+    def violation(self, key, what, case, observed=None, expected=None, severity=None):
+        case = dict(case, mutation=self._kind, original_key=key)
+        self._rec.violation('C30/%s/after-mutation/%s' % (self._op, self._kind),
+                            'after an in-place %s mutation of the same matrix object: %s' % (self._kind, what), case, observed, expected, severity)
+
+    def case(self, ident, nontrivial=True, cls=None):
+        self._rec.case(('mutate', self._kind) + tuple(ident), nontrivial, cls='mutate/%s/%s' % (self._op, self._kind))
+
+    def maximum(self, name, value, witness=None):
+        pass
+
+
+def _spd_block(r, k):
+    B = [[Fraction(r.randint(-3, 3)) for _ in range(k)] for _ in range(k + 1)]
+    return L.add(L.mul(L.T(B), B), L.eye(k))
+
+
+def mutate(mp, r, M, Aq, kind, spd):
+    """apply the in-place mutation to the matrix object M; returns (M, expected exact content computed independently from
+    the definition of the mutation).  For spd=True the mutation keeps the matrix symmetric positive definite."""
+    n = len(Aq)
+    E = [list(row) for row in Aq]
+    i, j = r.randrange(n), r.randrange(n)
+
+    def val():
+        return Fraction(r.randint(-9, 9) or 4)
+    if kind == 'element':
+        if spd:
+            j = i
+            v = E[i][i] + r.randint(1, 5)
+        else:
+            v = val()
+        M[i, j] = L.to_mp_scalar(mp, v) if r.random() < 0.5 else int(v)
+        E[i][j] = v
+    elif kind in ('row-slice', 'col-slice', 'col-slice-scalar'):
+        if spd:
+            # decouple index i: row i and column i become d*e_i (still symmetric positive definite)
+            d = Fraction(r.randint(1, 9))
+            vec = [d if t == i else Fraction(0) for t in range(n)]
+            M[i, :] = L.to_mpmatrix(mp, [vec])
+            M[:, i] = L.to_mpmatrix(mp, [[v] for v in vec])
+            for t in range(n):
+                E[i][t] = vec[t]
+                E[t][i] = vec[t]
+        elif kind == 'row-slice':
+            vec = [val() for _ in range(n)]
+            M[i, :] = L.to_mpmatrix(mp, [vec])
+            E[i] = vec
+        elif kind == 'col-slice':
+            vec = [val() for _ in range(n)]
+            M[:, j] = L.to_mpmatrix(mp, [[v] for v in vec])
+            for t in range(n):
+                E[t][j] = vec[t]
+        else:
+            v = val()
+            M[:, j] = int(v)
+            for t in range(n):
+                E[t][j] = v
+    elif kind == 'block-slice':
+        k = r.randint(1, n)
+        a = r.randint(0, n - k)
+        if spd:
+            # replace a leading-diagonal block and cut its coupling: block-diagonal SPD
+            B = _spd_block(r, k)
+            Z = n - k
+            M[a:a + k, a:a + k] = L.to_mpmatrix(mp, B)
+            for t in range(n):
+                if not (a <= t < a + k):
+                    M[a:a + k, t] = 0
+                    M[t, a:a + k] = 0
+            for x in range(k):
+                for y in range(n):
+                    if a <= y < a + k:
+                        E[a + x][y] = B[x][y - a]
+                    else:
+                        E[a + x][y] = Fraction(0)
+                        E[y][a + x] = Fraction(0)
+        else:
+            b = r.randint(0, n - k)
+            B = [[val() for _ in range(k)] for _ in range(k)]
+            M[a:a + k, b:b + k] = L.to_mpmatrix(mp, B)
+            for x in range(k):
+                for y in range(k):
+                    E[a + x][b + y] = B[x][y]
+    elif kind == 'full-slice':
+        B = _spd_block(r, n) if spd else [[val() for _ in range(n)] for _ in range(n)]
+        M[:, :] = L.to_mpmatrix(mp, B)
+        E = [list(row) for row in B]
+    elif kind == 'swap_row':
+        if spd:
+            # symmetric permutation keeps positive definiteness: swap rows then the same columns
+            mp.swap_row(M, i, j)
+            Mt = M.T
+            mp.swap_row(Mt, i, j)
+            M[:, :] = Mt.T
+            E[i], E[j] = E[j], E[i]
+            for row in E:
+                row[i], row[j] = row[j], row[i]
+        else:
+            mp.swap_row(M, i, j)
+            E[i], E[j] = E[j], E[i]
+    elif kind == 'inplace-slice-op':
+        c = r.choice([2, 3, -2]) if not spd else 1
+        if spd:
+            M[:, :] *= 4
+            E = [[4 * v for v in row] for row in E]
+        else:
+            M[i, :] *= c
+            E[i] = [c * v for v in E[i]]
+    elif kind == 'inplace-element-op':
+        if spd:
+            j = i
+        v = Fraction(r.randint(1, 7))
+        M[i, j] += int(v)
+        E[i][j] = E[i][j] + v
+    elif kind == 'rebind-op':
+        B = _spd_block(r, n) if spd else [[val() for _ in range(n)] for _ in range(n)]
+        which = r.choice(['+=', '*=2', '-='])
+        if which == '+=' or (spd and which == '-='):
+            M += L.to_mpmatrix(mp, B)
+            E = L.add(E, B)
+        elif which == '*=2':
+            M *= 2
+            E = [[2 * v for v in row] for row in E]
+        else:
+            M -= L.to_mpmatrix(mp, B)
+            E = L.sub(E, B)
+    elif kind == 'resize-shrink':
+        if n < 2:
+            return M, None
+        M.rows = n - 1
+        M.cols = n - 1
+        E = [row[:n - 1] for row in E[:n - 1]]
+    elif kind == 'resize-grow':
+        M.rows = n + 1
+        M.cols = n + 1
+        d = Fraction(r.randint(1, 9))
+        M[n, n] = int(d)
+        E = [row + [Fraction(0)] for row in E] + [[Fraction(0)] * n + [d]]
+        if not spd and r.random() < 0.5:
+            v = val()
+            M[n, 0] = int(v)
+            E[n][0] = v
+    else:
+        raise ValueError(kind)
+    return M, E
+
+
+def check_mutation(mp, rec, r, op, kind, p, tier):
+    """factor/solve with a matrix object, mutate the object in place, call again at the same precision and verify the
+    second result against the CURRENT content with the exact oracle"""
+    smax = MAXSIZE[tier]
+    n = r.randint(2, smax)
+    spd = op == 'cholesky'
+    if spd:
+        Aq = _spd_block(r, n)
+    else:
+        Aq = [[Fraction(r.randint(-9, 9)) for _ in range(n)] for _ in range(n)]
+        for t in range(n):
+            Aq[t][t] += r.choice([12, -12])            # comfortably nonsingular
+    case0 = {'op': 'mutate', 'fn': op, 'mutation': kind, 'prec': p, 'A': ser(Aq)}
+    with Prec(mp, p):
+        M = L.to_mpmatrix(mp, Aq)
+        b = mp.matrix([1 + t for t in range(n)])
+        try:
+            # first use of the object (this is what may leave state behind); its result is not the subject here
+            if op == 'lu':
+                mp.lu(M)
+            elif op == 'LU_decomp':
+                mp.LU_decomp(M)
+            elif op == 'det':
+                mp.det(M); mp.LU_decomp(M)
+            elif op == 'inverse':
+                mp.inverse(M); mp.LU_decomp(M)
+            elif op == 'lu_solve':
+                mp.lu_solve(M, b); mp.LU_decomp(M)
+            elif op == 'qr':
+                mp.qr(M); mp.LU_decomp(M)
+            else:
+                mp.cholesky(M)
+                try:
+                    mp.LU_decomp(M)
+                except ZeroDivisionError:
+                    pass
+        except Exception as e:
+            rec.note('mutate: first call raised', {'fn': op, 'exc': repr(e)}, cap=5)
+            return
+        try:
+            M, E = mutate(mp, r, M, Aq, kind, spd)
+        except Exception as e:
+            rec.violation('C30/mutation/%s/raised-%s' % (kind, type(e).__name__), 'the in-place mutation itself raised', case0, repr(e), None)
+            return
+        if E is None:
+            return
+        cur = L.from_mpmatrix(M)
+    if L.shape(cur) != L.shape(E) or not L.equal(cur, E):
+        rec.case(('mutate-content', kind, p, key_of(Aq)), True, cls='mutate/content/' + kind)
+        rec.violation('C30/mutation/%s/content' % kind, 'matrix content after the in-place mutation differs from the definition of the mutation',
+                      dict(case0, expected=ser(E)), ser(cur), ser(E))
+        return
+    rec.event('mutate-then-refactor sequences', 1)
+    trec = TagRec(rec, op, kind)
+    m2 = len(cur)
+    if op in ('lu', 'LU_decomp'):
+        check_lu(mp, trec, r, op, 'mutated', False, p, cur, A_obj=M)
+    elif op == 'qr':
+        check_qr(mp, trec, r, 'mutated', False, p, cur, r.choice(['full', 'skinny']), A_obj=M)
+    elif op == 'cholesky':
+        if not L.is_hermitian(cur):
+            return
+        try:
+            check_cholesky(mp, trec, r, 'mutated', False, p, cur, A_obj=M)
+        except L.Singular:
+            return
+    else:
+        bq = [Fraction(r.randint(-9, 9) or 1) for _ in range(m2)] if op == 'lu_solve' else None
+        check_solve(mp, trec, r, op, 'mutated', False, p, cur, bq, A_obj=M)
+
+
+def mut_cells():
+    return [(op, k) for op in MUT_OPS for k in MUT_KINDS]
+
+
+MUT_CELLS = mut_cells()
+
 # ---------------------------------------------------------------------------------------
 # driver
 # ---------------------------------------------------------------------------------------
@@ -997,13 +1248,20 @@ def run_shard(shard, rec):
         ctxm = AnchorCount(rec, ANCHORS)
     except Exception:
         ctxm = None
+    def mutation_block():
+        r2 = G.rng(PROP, shard['seed'], 'mutate-%d' % shard['shard'])
+        for i in range(MUT_CASES[tier]):
+            op, kind = MUT_CELLS[(i * NSHARDS + shard['shard']) % len(MUT_CELLS)]
+            check_mutation(mp, rec, r2, op, kind, PRECS[(i + shard['shard']) % len(PRECS)], tier)
     if ctxm is not None:
         with ctxm:
             for i in range(shard['n']):
                 run_case(mp, rec, r, i * NSHARDS + shard['shard'], tier)
+            mutation_block()
     else:
         for i in range(shard['n']):
             run_case(mp, rec, r, i * NSHARDS + shard['shard'], tier)
+        mutation_block()
     rec.event('results compared with exact rational linear algebra', rec.evals)
 
 
@@ -1014,6 +1272,10 @@ def required(agg, tier):
             miss.append('no %s case observed inside the envelope' % op)
     if not agg['events'].get('results compared with exact rational linear algebra'):
         miss.append('oracle compared nothing')
+    for op in MUT_OPS:
+        for kind in ('row-slice', 'col-slice', 'block-slice', 'element', 'swap_row', 'resize-shrink'):
+            if not agg['classes'].get('mutate/%s/%s' % (op, kind)):
+                miss.append('mutate-then-refactor: %s after %s never verified' % (op, kind))
     return miss
 
 
